@@ -79,6 +79,17 @@ pub(crate) fn remove_all<Fd: AsFd>(dirfd: Fd, name: &Path) -> Result<(), Error> 
     }
 
     // Fast path -- try to remove it with unlink/rmdir.
+    // Like rm(1), refuse to operate on "." and "..". They cannot be removed by
+    // name, and opening them below would make us delete the contents of a
+    // directory other than the one the caller asked for (for ".." at the top
+    // of a root, that is the directory containing the root).
+    if matches!(name.as_os_str().as_bytes(), b"." | b"..") {
+        Err(ErrorImpl::InvalidArgument {
+            name: "path".into(),
+            description: "cannot remove '.' or '..'".into(),
+        })?;
+    }
+
     if remove_inode(dirfd, name).ignore_enoent().is_ok() {
         return Ok(());
     }
